@@ -98,7 +98,7 @@ def run(ctx):
             ("h_lockstep", [str(nls), str(ctx.seed)], ("lockstep",), nls),
             ("h_msgcut", [str(nmc), str(ctx.seed)], ("msgcut",), nmc)]
     for j in range(nrecv):
-        jobs.append(("h_recv", [str(ctx.seed + 7919 * j)], ("recv",), 10))
+        jobs.append(("h_recv", [str(ctx.seed + 7919 * j)], ("recv",), 13))
     for binname, args, kinds, want in jobs:
         rc2, lines2 = ctx.run_bin(binname, "", args=args, timeout=1500)
         got = []
@@ -179,14 +179,24 @@ def run(ctx):
         broken.append({"obligation": "Coq proof of Props/C12.v", "detail": getattr(ctx, "proof_failure", {}),
                        "field_pin_violations (TLV type: place written vs variable read into)": pin_viol[:10]})
     replay_cmd = "%s 1 <seed> %d   (with the scenario seed printed in the result line; h_persist <n> <seed> <steps>)" % (ctx.bin_path("h_persist"), steps)
+    reported = False
     if extra_fails and not fails:
-        f = extra_fails[0]
-        why = (f.get("fails") or ["?"])[0]
-        ctx.violation("C12 fails on the implementation (%s): %s" % (f.get("kind"), why),
-                      {"broken": broken or "implementation judge", "failing_input": {"kind": f.get("kind"), "scenario_seed": f.get("seed"), "scenario_index": f.get("scenario"), "desc": f.get("desc"), "fails": f.get("fails")},
-                       "n_failing_scenarios": len(extra_fails), "more": [(g.get("kind"), (g.get("fails") or ["?"])[0][:300]) for g in extra_fails[1:4]],
-                       "replay_cmd": "%s %s   (scenario index %s)" % (ctx.bin_path(f["bin"]), " ".join(f["args"]), f.get("scenario"))}, True,
-                      key="persist:%s:%s" % (f.get("kind"), why.split(":")[0][:60]))
+        groups = {}
+        for f in extra_fails:
+            why = (f.get("fails") or ["?"])[0]
+            k = "persist:" + (f.get("key") or "%s:%s" % (f.get("kind"), why.split(":")[0][:60]))
+            groups.setdefault(k, []).append(f)
+        for k, fs in list(groups.items())[:6]:
+            f = fs[0]
+            why = (f.get("fails") or ["?"])[0]
+            ctx.violation("C12 fails on the implementation (%s): %s" % (f.get("kind"), why),
+                          {"broken": broken or "implementation judge", "failing_input": {"kind": f.get("kind"), "scenario": f.get("scenario"), "reload_point": f.get("reload_point"), "scenario_seed": f.get("seed"), "desc": f.get("desc"), "fails": f.get("fails")},
+                           "n_failing_scenarios": len(fs), "more": [(g.get("kind"), (g.get("fails") or ["?"])[0][:300]) for g in fs[1:4]],
+                           "replay_cmd": "%s %s   (scenario %s)" % (ctx.bin_path(f["bin"]), " ".join(f["args"]), f.get("scenario"))}, True, key=k)
+        reported = bool(ctx.violations)
+        if broken and not reported:
+            ctx.violation("C12 no longer shown: " + ("schema extraction" if gen_err else "proof") + " broken",
+                          {"broken": broken, "search": "only known findings reproduced; no new failing input", "replay_cmd": replay_cmd}, False)
     elif fails:
         f = fails[0]
         ctx.violation("C12 fails on the implementation: " + (f.get("fails") or ["?"])[0],
